@@ -374,3 +374,17 @@ def s_set_truth(a):
     r.append(1 if s else 0)
     return r
 
+
+
+def c_search_loop(d, x):
+    for i, c in enumerate(d):
+        if c == x % 256:
+            return (i, c)
+    return None
+
+
+def c_search_loop_plain(d):
+    for c in d:
+        if c in (0x7E, 0x11, 0x13):
+            return c
+    return -1
